@@ -12,6 +12,7 @@ trap 'git -C /repo worktree remove --force '$WT' 2>/dev/null; rm -rf '$OUT EXIT
 for s in $SEEDS; do
   [ -f seeded/$s/patch.diff ] || continue
   prop=$(python3 -c "import json;print(json.load(open('seeded/$s/meta.json'))['property'])")
+  if grep -q obsolete_since seeded/$s/meta.json; then echo "$s: obsolete (see meta.json)"; continue; fi
   git -C $WT checkout -q -- . ; git -C $WT clean -fdq
   if ! git -C $WT apply /verif/seeded/$s/patch.diff 2>/dev/null; then echo "$s: patch does not apply to HEAD"; continue; fi
   VERIF_REPO=$WT VERIF_BUILD=$OUT/build VERIF_OUT=$OUT ./check $prop quick > $OUT/$s.log 2>&1; rc=$?
